@@ -1620,14 +1620,14 @@ Proof.
            pget FNow Q1. pget FFid Q1. pget FSelSt Q1. pget FOpSt Q1. pget FSel Q1. prj.
            split; [apply frx_intro; congruence|]. split; [congruence|].
            left. split; [|split; [congruence|exact Hsk]].
-           replace (o ++ [ODb DbClearWritten] ++ o2 ++ o3 ++ o5) with ((o ++ [ODb DbClearWritten] ++ o2 ++ o3) ++ o5).
-           ++ apply no_cb_app; auto.
-           ++ rewrite <- !app_assoc. reflexivity.
+           apply no_cb_app; split; [exact Ho|]. apply no_cb_cons; split; [reflexivity|].
+           apply no_cb_app; split; [exact B2|]. apply no_cb_app; split; [exact B3|exact Q2].
     + destruct (resume_at cfg (stage_of r) (upd_pending (upd_control s0 CIdle) (Some (from, bc, bytes, d, fid)))) as [s2 o2] eqn:Er.
       inversion H; subst s' out. clear H.
       apply resume_at_proc in Er; [|apply stage_of_pre; [reflexivity|exact Jd]]. destruct Er as [Hir HJ'].
       split; [exact HJ'|].
-      replace (o ++ [ODb DbReset] ++ o2) with ((o ++ [ODb DbReset]) ++ o2) by (rewrite <- app_assoc; reflexivity).
+      assert (Heq : o ++ ODb DbReset :: o2 = (o ++ [ODb DbReset]) ++ o2) by (rewrite <- app_assoc; reflexivity).
+      cbn [app]. rewrite Heq.
       eapply (pending_run cfg s (upd_pending (upd_control s0 CIdle) (Some (from, bc, bytes, d, fid)))); eauto; try reflexivity.
       * subst s0. pres_now.
       * apply no_cb_app; split; [exact Ho|reflexivity].
@@ -1636,7 +1636,9 @@ Proof.
     pose proof (unsol_wait_fragment_spec _ _ _ _ _ _ _ _ _ _ _ Eu) as [A1 _].
     assert (Hpr : proc cfg s0 (from, bc, bytes, d, fid) s1 o) by (right; eauto).
     assert (Hmid : rx_mid s s0 fid) by (unfold rx_mid; subst s0; prj; repeat split; auto).
-    pget FNow A1. pget FFid A1. pget FSelSt A1. pget FOpSt A1. pget FPend A1. pget FCtl A1. prj.
+    pget FNow A1. pget FFid A1. pget FSelSt A1. pget FOpSt A1. pget FPend A1. pget FCtl A1.
+    pget FNow P0. pget FSelSt P0. pget FOpSt P0. pget FPend P0. pget FCtl P0.
+    assert (F0 : s_frame_id s0 = fid) by reflexivity.
     destruct res as [r|].
     + destruct (end_unsol cfg s1 is_null r) as [[s2 ns] o2] eqn:Ee.
       apply end_unsol_spec in Ee. destruct Ee as [A2 [B2 C2]].
@@ -1652,8 +1654,115 @@ Proof.
       right. exists s0, s1, [], o, (o2 ++ o3). split; [reflexivity|]. split; [reflexivity|].
       split; [exact Hmid|]. split; [exact Hpr|]. split; [right; eauto|]. split; [exact Qa|exact Qb].
     + inversion H; subst s' out. clear H.
-      split; [split; [congruence|right; rewrite P4, Ec; exact I]|].
+      split; [split; [congruence|right; replace (s_control s1) with (CUnsolWait resp is_null retries dl) by congruence; exact I]|].
       split; [apply frx_intro; congruence|]. split; [congruence|].
       right. exists s0, s1, [], o, []. split; [rewrite app_nil_r; reflexivity|]. split; [reflexivity|].
       split; [exact Hmid|]. split; [exact Hpr|]. split; [right; eauto|apply quiet_refl].
+Qed.
+
+(* ---------- the step ---------- *)
+Lemma rx_res_after cfg s from bc bytes d fid s1 o1 s' o2 :
+  rx_res quiet cfg s from bc bytes d fid s1 o1 -> quietT s1 s' o2 ->
+  rx_res quietT cfg s from bc bytes d fid s' (o1 ++ o2).
+Proof.
+  intros [[A [B C]]|[sm [s2 [oa [ob [oc [Ho [Hoa [Hmid [Hpr [Hd Hq]]]]]]]]]]] Hq2.
+  - left. destruct Hq2 as [Q1 [Q2 _]]. split; [apply no_cb_app; auto|]. split; [|exact C].
+    pget FSel Q1. congruence.
+  - right. exists sm, s2, oa, ob, (oc ++ o2). split; [rewrite Ho, <- !app_assoc; reflexivity|].
+    split; [exact Hoa|]. split; [exact Hmid|]. split; [exact Hpr|]. split; [exact Hd|].
+    eapply quietT_trans; [apply quiet_quietT; exact Hq|exact Hq2].
+Qed.
+
+Lemma rx_res_ext Q cfg s s0 from bc bytes d fid s' o :
+  s_now s0 = s_now s -> s_sel_status s0 = s_sel_status s -> s_op_status s0 = s_op_status s ->
+  s_select s0 = s_select s -> s_last s0 = s_last s ->
+  rx_res Q cfg s0 from bc bytes d fid s' o -> rx_res Q cfg s from bc bytes d fid s' o.
+Proof.
+  intros E1 E2 E3 E4 E5 [[A [B C]]|[sm [s2 [oa [ob [oc [Ho [Hoa [Hmid [Hpr [Hd Hq]]]]]]]]]]].
+  - left. split; [exact A|]. split; [congruence|exact C].
+  - right. exists sm, s2, oa, ob, oc. split; [exact Ho|]. split; [exact Hoa|]. split; [|auto].
+    unfold rx_mid in *. destruct Hmid as [M1 [M2 [M3 [M4 [M5 [M6 M7]]]]]]. repeat split; congruence.
+Qed.
+
+Definition step_res (cfg : ocfg) (s : ostate) (ev : oevent) (s' : ostate) (out : list oobs) : Prop :=
+  match ev with
+  | ERx from bc bytes d =>
+      let fid := (s_frame_id s + 1) mod 4294967296 in
+      s_sel_status s' = s_sel_status s /\ s_op_status s' = s_op_status s /\
+      s_now s' = (s_now s + settle_ms)%Z /\ s_frame_id s' = fid /\
+      rx_res quietT cfg s from bc bytes d fid s' out
+  | ESleep ms => quietT s s' out /\ s_now s' = (s_now s + ms)%Z
+  | EDbChange => quietT s s' out /\ s_now s' = (s_now s + settle_ms)%Z
+  | EHandler sel op => out = [] /\ pres [FNow; FFid; FSel; FDef; FLast] s s'
+  | EAppIin v => out = [] /\ pres [FNow; FFid; FSel; FDef; FLast; FSelSt; FOpSt] s s'
+  | EDisconnect =>
+      no_cb out /\ s_select s' = None /\ s_frame_id s' = s_frame_id s /\
+      s_sel_status s' = s_sel_status s /\ s_op_status s' = s_op_status s
+  end.
+
+Lemma ostep_spec cfg s ev ans s' out :
+  J s -> ostep cfg s ev ans = (s', out) -> J s' /\ step_res cfg s ev s' out.
+Proof.
+  intros HJ H. unfold ostep in H.
+  set (s0 := upd_answers s ans) in *.
+  assert (J0 : J s0) by exact HJ.
+  assert (P0 : pres fall s s0) by (subst s0; pres_now).
+  pget FNow P0. pget FFid P0. pget FSelSt P0. pget FOpSt P0. pget FPend P0. pget FDef P0. pget FCtl P0.
+  pget FLast P0. pget FSel P0.
+  assert (Q0 : quietT s s0 []).
+  { apply quiet_quietT. apply (quiet_of_pres fall); [reflexivity|exact P0|reflexivity]. }
+  clearbody s0.
+  destruct ev as [from bc bytes d|ms| |sel op|v|]; cbn [step_res].
+  - destruct (on_rx cfg s0 from bc bytes d) as [s1 o1] eqn:Eo.
+    apply on_rx_spec in Eo; [|exact J0]. cbv zeta in Eo. destruct Eo as [J1 [A1 [F1 R1]]].
+    destruct (advance 64 cfg s1 (s_now s1 + settle_ms)) as [s2 o2] eqn:Ea.
+    apply advance_spec in Ea; [|exact J1]. destruct Ea as [Q2 [J2 N2]].
+    inversion H; subst s' out. clear H. split; [exact J2|].
+    pget FNow A1. pget FSelSt A1. pget FOpSt A1. destruct Q2 as [Qa Qb].
+    pget FFid Qa. pget FSelSt Qa. pget FOpSt Qa.
+    split; [congruence|]. split; [congruence|]. split; [congruence|]. split; [congruence|].
+    rewrite <- P1. apply (rx_res_ext quietT cfg s s0); auto.
+    eapply rx_res_after; [exact R1|split; assumption].
+  - destruct (advance 4096 cfg s0 (s_now s0 + ms)) as [s2 o2] eqn:Ea.
+    apply advance_spec in Ea; [|exact J0]. destruct Ea as [Q2 [J2 N2]].
+    inversion H; subst s' out. split; [exact J2|]. split; [|congruence].
+    exact (quietT_trans _ _ _ _ _ Q0 Q2).
+  - destruct J0 as [Jp Jd].
+    assert (H1 : exists s1 o1, quiet s0 s1 o1 /\ J s1 /\
+              match s_control s0 with CIdle => idle_loop 8 cfg s0 | _ => (upd_notify s0 true, []) end = (s1, o1)).
+    { destruct (s_control s0) eqn:Ec.
+      - destruct Jd as [Jd|Jd]; [|destruct Jd].
+        destruct (idle_loop 8 cfg s0) as [s1 o1] eqn:Ei. exists s1, o1.
+        apply idle_loop_spec in Ei; [|split; assumption|exact Jp]. destruct Ei as [A B]. auto.
+      - exists (upd_notify s0 true), []. split; [|split; [|reflexivity]].
+        + apply (quiet_of_pres [FNow; FFid; FSelSt; FOpSt; FSel; FDef; FLast]); [reflexivity|pres_now|reflexivity].
+        + split; [exact Jp|]. destruct Jd as [Jd|Jd]; [left; exact Jd|destruct Jd].
+      - exists (upd_notify s0 true), []. split; [|split; [|reflexivity]].
+        + apply (quiet_of_pres [FNow; FFid; FSelSt; FOpSt; FSel; FDef; FLast]); [reflexivity|pres_now|reflexivity].
+        + split; [exact Jp|right; prj; rewrite Ec; exact I]. }
+    destruct H1 as [s1 [o1 [Q1 [J1 E1]]]]. rewrite E1 in H.
+    destruct (advance 64 cfg s1 (s_now s1 + settle_ms)) as [s2 o2] eqn:Ea.
+    apply advance_spec in Ea; [|exact J1]. destruct Ea as [Q2 [J2 N2]].
+    inversion H; subst s' out. split; [exact J2|].
+    destruct Q1 as [Qa Qb]. pget FNow Qa. split; [|congruence].
+    change (o1 ++ o2) with ([] ++ o1 ++ o2).
+    exact (quietT_trans _ _ _ _ _ Q0 (quietT_trans _ _ _ _ _ (quiet_quietT _ _ _ (conj Qa Qb)) Q2)).
+  - inversion H; subst s' out. split; [exact J0|]. split; [reflexivity|].
+    unfold pres. repeat constructor; cbn [fld_eq]; prj; congruence.
+  - inversion H; subst s' out. split; [exact J0|]. split; [reflexivity|].
+    unfold pres. repeat constructor; cbn [fld_eq]; prj; congruence.
+  - set (s1 := upd_pending (upd_control (session_reset s0) CIdle) None) in *.
+    destruct (idle_loop 8 cfg s1) as [s2 o2] eqn:Ei.
+    apply idle_loop_spec in Ei; [|split; reflexivity|reflexivity]. destruct Ei as [[Qa [Qb Qc]] J2].
+    destruct (advance 64 cfg s2 (s_now s2 + settle_ms)) as [s3 o3] eqn:Ea.
+    apply advance_spec in Ea; [|exact J2]. destruct Ea as [[Qd [Qe Qf]] [J3 N3]].
+    inversion H; subst s' out. split; [exact J3|].
+    pget FFid Qa. pget FSelSt Qa. pget FOpSt Qa. pget FSel Qa.
+    pget FFid Qd. pget FSelSt Qd. pget FOpSt Qd. pget FSel Qd.
+    assert (E1 : s_select s1 = None) by reflexivity.
+    assert (E2 : s_frame_id s1 = s_frame_id s0) by reflexivity.
+    assert (E3 : s_sel_status s1 = s_sel_status s0) by reflexivity.
+    assert (E4 : s_op_status s1 = s_op_status s0) by reflexivity.
+    split; [apply no_cb_cons; split; [reflexivity|]; apply no_cb_cons; split; [reflexivity|]; apply no_cb_app; auto|].
+    split; [congruence|]. split; [congruence|]. split; congruence.
 Qed.
